@@ -66,6 +66,7 @@ CONSTANTS
  Dev = %s
  SS = 1
  DoPrint = %s
+ Starts = %s
  Sems = %s
  IOs = %s
 INVARIANT EmitBeh
@@ -77,7 +78,7 @@ CHECK_DEADLOCK FALSE
 
 
 def run_formulas(name, formulas, maxt=3, maxn=3, vals=(-2, 3), dev=(), workers=8, timeout=7200, expect_violation=False,
-                 sems=("standard",), ios=("output",), simulate=None, seed=0):
+                 sems=("standard",), ios=("output",), simulate=None, seed=0, starts=(0,)):
     """simulate=N: TLC -simulate instead of exhaustive search; returns (result, behaviours printed by EmitBeh)"""
     """exhaustive TLC run of DenseOnFMC: formulas x signals x all per-variable schedules"""
     wd = tlc.workdir(name)
@@ -85,7 +86,7 @@ def run_formulas(name, formulas, maxt=3, maxn=3, vals=(-2, 3), dev=(), workers=8
     with open(os.path.join(wd, mod + ".tla"), "w") as f:
         f.write("---- MODULE %s ----\nEXTENDS DenseOnFMC\nFormulasDef == %s\nValsDef == %s\n====\n" % (mod, tlc.tla_set(formulas), tlc.tla(set(vals))))
     with open(os.path.join(wd, mod + ".cfg"), "w") as f:
-        f.write(FCFG % (maxt, maxn, tlc.tla(set(dev)), "TRUE" if simulate else "FALSE", tlc.tla(set(sems)), tlc.tla(set(ios))))
+        f.write(FCFG % (maxt, maxn, tlc.tla(set(dev)), "TRUE" if simulate else "FALSE", tlc.tla(set(starts)), tlc.tla(set(sems)), tlc.tla(set(ios))))
     if simulate:
         res = tlc.run(wd, mod, workers=workers, timeout=timeout, deadlock=True, simulate="num=%d" % simulate, depth=2 * maxn + 2, seed=seed + 1)
     else:
